@@ -299,6 +299,27 @@ func c06Atoms(thorough bool, emit func(c06case)) {
 		}
 		emit(c06case{fmt.Sprintf("in(path member)|path:%s", ta), rx.In(rx.OpP("a"), rx.OpV(":p"), rx.OpP("b")), item2, nil, map[string]val.V{":p": val.S("nomatch")}})
 	}
+	// 6b. operand positions exchanged: a value on the left of IN / BETWEEN and attribute paths (named
+	// nowhere else in the expression) in the list or as bounds
+	for _, ta := range typesAbsent {
+		for _, tb := range typesAbsent {
+			for _, tx := range []string{"S", "N", "B", "BOOL"} {
+				item := val.Item{"z": val.S("other")}
+				if av := valOfType(ta, 1); av != nil {
+					item["a"] = *av
+				}
+				if bv := valOfType(tb, 0); bv != nil {
+					item["b"] = *bv
+				}
+				for xi := 0; xi < len(tvals[tx]) && xi < 2; xi++ {
+					x := map[string]val.V{":x": tvals[tx][xi]}
+					emit(c06case{fmt.Sprintf("in(value IN paths)|val:%s|path:%s,path:%s", tx, ta, tb), rx.In(rx.OpV(":x"), rx.OpP("a"), rx.OpP("b")), item, nil, x})
+					emit(c06case{fmt.Sprintf("between(value BETWEEN paths)|val:%s|path:%s|path:%s", tx, ta, tb), rx.Between(rx.OpV(":x"), rx.OpP("a"), rx.OpP("b")), item, nil, x})
+					emit(c06case{fmt.Sprintf("between(path BETWEEN path AND value)|path:%s|path:%s|val:%s", ta, tb, tx), rx.Between(rx.OpP("b"), rx.OpP("a"), rx.OpV(":x")), item, nil, x})
+				}
+			}
+		}
+	}
 	// 7. functions on every path spelling x every typing
 	for _, ps := range paths {
 		for _, ta := range typesAbsent {
@@ -360,6 +381,14 @@ func c06Atoms(thorough bool, emit func(c06case)) {
 		{val.L(val.S("x")), val.L(val.S("x"), val.S("y"))}, {val.L(val.S("x"), val.S("y")), val.L(val.S("x"))}, {val.L(), val.L(val.S("x"))},
 		{val.M("k", val.N("1")), val.M("k", val.N("1"), "j", val.N("2"))}, {val.M("k", val.N("1"), "j", val.N("2")), val.M("k", val.N("1"))}, {val.M(), val.M("k", val.N("1"))},
 		{val.L(val.S("x"), val.S("x"), val.S("y")), val.L(val.S("x"), val.S("y"), val.S("y"))},
+		// maps and lists of equal size that differ in exactly one of several members (whichever
+		// member a comparison happens to visit first, the others count too)
+		{val.M("k", val.N("1"), "j", val.N("2"), "i", val.N("3"), "h", val.N("4")), val.M("k", val.N("1"), "j", val.N("2"), "i", val.N("3"), "h", val.N("5"))},
+		{val.M("k", val.N("1"), "j", val.N("2"), "i", val.N("3"), "h", val.N("4")), val.M("k", val.N("9"), "j", val.N("2"), "i", val.N("3"), "h", val.N("4"))},
+		{val.M("k", val.S("a"), "j", val.S("b"), "i", val.S("c"), "h", val.S("d")), val.M("k", val.S("a"), "j", val.S("x"), "i", val.S("c"), "h", val.S("d"))},
+		{val.M("k", val.S("a"), "j", val.S("b"), "i", val.S("c"), "h", val.S("d")), val.M("k", val.S("a"), "j", val.S("b"), "i", val.S("c"), "g", val.S("d"))},
+		{val.L(val.N("1"), val.N("2"), val.N("3")), val.L(val.N("1"), val.N("2"), val.N("4"))}, {val.L(val.N("1"), val.N("2"), val.N("3")), val.L(val.N("0"), val.N("2"), val.N("3"))},
+		{val.L(val.N("1"), val.N("2"), val.N("3")), val.L(val.N("1"), val.N("0"), val.N("3"))},
 		// sets nested in documents, members written in another order
 		{val.M("k", val.SS("a", "b")), val.M("k", val.SS("b", "a"))}, {val.M("k", val.NS("1", "2")), val.M("k", val.NS("2", "1"))}, {val.M("k", val.BS([]byte{1}, []byte{2})), val.M("k", val.BS([]byte{2}, []byte{1}))},
 		{val.L(val.BS([]byte{1}, []byte{2})), val.L(val.BS([]byte{2}, []byte{1}))}, {val.L(val.SS("a", "b")), val.L(val.SS("a", "c"))},
